@@ -440,12 +440,29 @@ def check_stero_from_geometry(prog: Program, res: Result) -> None:
     if n < 2:
         res.unrecognised("R-POS-ID", "stero_from_geometry perception calls",
                          fi.loc(), f"{n} calls found")
+    from ..pe import resolve
+    atom_ok = planar_ok = False
+    for c in ast.walk(fi.node):
+        if not (isinstance(c, ast.Call) and call_name(c) in (
+                "atom_stereo_from_coords", "_planar_bond_from_coords")):
+            continue
+        b_ = prog.bound_args(c)
+        ids = b_.get("atoms") if b_ else (c.args[0] if c.args else None)
+        if ids is None:
+            continue
+        full = re.sub(r"\s", "", norm(resolve(ids, fi.node), 400))
+        if call_name(c) == "atom_stereo_from_coords" and re.fullmatch(
+                r"\((\w+),\*(\w+)\.bonded_to\(\1\)\)", full):
+            atom_ok = True
+        if call_name(c) == "_planar_bond_from_coords" and re.fullmatch(
+                r"\(\*(\w+)\.bonded_to\((\w+)\)\.difference\(\{(\w+)\}\),"
+                r"\2,\3,\*\1\.bonded_to\(\3\)\.difference\(\{\2\}\)\)",
+                full):
+            planar_ok = True
     for what, ok in (
-            ("atom tuple = (atom, *bonded neighbours)",
-             "atom_stereo_tup = (atom, *first_nbrs)" in t
-             and "first_nbrs = smg.bonded_to(atom)" in t),
+            ("atom tuple = (atom, *bonded neighbours)", atom_ok),
             ("planar-bond tuple = (nbrs of atom, atom, nbr, nbrs of nbr)",
-             "stereo_atoms = (*first_nbrs_reduced, atom, nbr, *second_neighbors)" in t)):
+             planar_ok)):
         inst = f"stero_from_geometry: {what}"
         if ok:
             res.ok("R-POS-ID", inst, fi.loc())
